@@ -7,5 +7,6 @@ import LasModel.Audit.C09
 import LasModel.Audit.C10
 import LasModel.Audit.C08
 import LasModel.Audit.C07
+import LasModel.Audit.C02
 import LasModel.Model.Date
 import LasModel.Driver.Main
